@@ -360,6 +360,12 @@ func (env *Env) evalBin(e *E) (interface{}, error) {
 	case "matches":
 		a, ok1 := l.(string)
 		b, ok2 := r.(string)
+		// /letters/ and /letters/i (case-insensitive) are modelled
+		fold := false
+		if ok2 && strings.HasSuffix(b, "/i") {
+			fold = true
+			b = b[:len(b)-1]
+		}
 		if !ok1 || !ok2 || len(b) < 2 || b[0] != '/' || b[len(b)-1] != '/' {
 			return nil, domain("matches outside the modelled pattern form")
 		}
@@ -368,6 +374,19 @@ func (env *Env) evalBin(e *E) (interface{}, error) {
 			if !(c >= 'a' && c <= 'z' || c >= 'A' && c <= 'Z') {
 				return nil, domain("matches: only literal letter patterns are modelled")
 			}
+		}
+		if fold {
+			// ASCII letters only in the pattern; the subject is folded on ASCII letters as well
+			lower := func(x string) string {
+				bs := []byte(x)
+				for i, ch := range bs {
+					if ch >= 'A' && ch <= 'Z' {
+						bs[i] = ch + 32
+					}
+				}
+				return string(bs)
+			}
+			return strings.Contains(lower(a), lower(pat)), nil
 		}
 		return strings.Contains(a, pat), nil
 	}
